@@ -43,6 +43,7 @@ def run(ctx):
     chk.rule('L4', 'literal text of the format is not routed through the buffer sized by the data-source limit (it would be '
                    'cut to that limit)', floor=1)
     chk.rule('L5', 'the name and argument buffers of a tag are rebuilt for every tag (nothing of the previous tag is reused)', floor=1)
+    chk.rule('L6', 'the name looked up for a tag starts at the first character of the tag (an empty name is an unknown data source)', floor=1)
     chk.rule('L3', 'the ident and path templates are expanded into fixed buffers with their own size as the limit', floor=2)
     chk.explanation = (
         'Decides only the two length clauses. Sizes are composed symbolically across the three call levels (action -> '
@@ -167,6 +168,24 @@ def run(ctx):
                    'written into it before it is used, so a tag without an argument inherits the previous tag\'s argument '
                    '(%%{env:X}|%%{datetime} expands datetime with the format "X")' % (x['name'], render(bad)[:50] if bad is not None else ''),
                    how='written on every path from the loop head to its use')
+    # ---- L6: the data source name is the text of the tag from its first character ----------------------------
+    for i, c in enumerate(dsc[:1]):
+        nm = arg(c, 0)
+        d = decl_of(nm)
+        okn, why = False, 'the name handed to the registry is not a variable'
+        if d is not None:
+            arrays_ = {x['id'] for x in G.local_decls() if 'arrayLen' in x}
+            if d['id'] in arrays_:
+                okn, why = True, 'the tag buffer itself'
+            else:
+                defs = [strip(x) for x in def_exprs(G, d['id'])]
+                defs = [x for x in defs if not (x.get('null') or x.get('v') == 0)]
+                okn = bool(defs) and all(x.k == 'DeclRefExpr' and (decl_of(x) or {}).get('id') in arrays_ for x in defs)
+                why = 'assigned %s' % ', '.join(render(x)[:40] for x in defs)
+        chk.ob('L6', 'name-is-the-tag-from-its-first-character', okn, c.where(), G.name,
+               'the data source name is %s: a splitter such as strtok()/strtok_r() skips leading separators, so "%%{:filename}" '
+               'or "%%{::env:X}" runs a data source instead of giving the "not found" error for the empty name' % why,
+               how='the name pointer is the tag buffer (the argument is split off behind the first ":")')
     # what is appended after the call is the buffer itself
     # ---- L2 ------------------------------------------------------------------------------------
     msg = decl_of(arg(gc, 0))
